@@ -152,6 +152,10 @@ Inductive op :=
 | OutResult (i : N) (b : bool)                     (* what output port i's WriteDMX returns from now on *)
 | SinkResult (c : N) (b : bool)                    (* what client c's SendDMX returns from now on *)
 | SetDMX (data : list N)                           (* Universe::SetDMX(DmxBuffer(data)) *)
+| AckClient (c n : N)                              (* n pending UpdateDmxData acks of client c arrive:
+                                                      Client::SendDMXCallback frees the RPC objects,
+                                                      nothing else (Client::SendDMX issues every request
+                                                      at once, whatever is still un-acked) *)
 | ClientOther (c : N) (data : list N) (prio ts : N)
                                                    (* Client::DMXReceived for ANOTHER universe id: the
                                                       client's m_data_map entry of this universe, which
@@ -283,3 +287,13 @@ Definition step (w : world) (o : op) : world * list event :=
   end.
 
 Definition run (ops : list op) : world := fold_left (fun w o => fst (step w o)) ops init_world.
+
+(* Two universes of one daemon sharing the client objects (a client may be source and sink of both);
+   ports belong to one universe.  Nothing one universe does is visible to the other: Client keeps its
+   source frames per universe id (m_data_map) and SendDMX keeps no state between calls. *)
+Inductive uop := On1 (o : op) | On2 (o : op).
+Definition step2 (ww : world * world) (o : uop) : (world * world) * list event :=
+  match o with
+  | On1 o => let (w, evs) := step (fst ww) o in ((w, snd ww), evs)
+  | On2 o => let (w, evs) := step (snd ww) o in ((fst ww, w), evs)
+  end.
